@@ -114,4 +114,4 @@ def run(ctx):
         recs.append({"kind": "stop_commit_of_unsent_or_twice", "count": st["bad_commits"]})
     ctx.classify(recs)
     # 3. shared pipeline scenarios
-    _c01.run(ctx, pid=PID, families=(("batch", 100, 500), ("commit", 40, 200)))
+    _c01.run(ctx, pid=PID, families=(("batch", 100, 500), ("commit", 40, 200), ("retry", 40, 200)))
